@@ -279,6 +279,21 @@ pub fn gen_sinks(rng: &mut Rng, tier: &Tier) -> Vec<Case> {
             cases.push(c);
         }
     }
+    // the order-only sinks at the smallest machine integers, ends of the range included
+    for (suffix, vals) in [("u8", [0i64, 1, 2, 127, 128, 254, 255]), ("i8", [-128i64, -127, -1, 0, 1, 126, 127])] {
+        for kind in ["sink_min", "sink_max", "sink_bounds"] {
+            for _ in 0..tier.n(20, 200) {
+                let as_filter = rng.chance(1, 2);
+                let mut c = vec![format!("new 1 {}_{}", kind, suffix), "fin 1".to_string()];
+                for _ in 0..rng.range(1, 8) {
+                    let v = *rng.pick(&vals);
+                    c.push(if as_filter { format!("ff 1 {}", v) } else { format!("sink 1 {}", v) });
+                    c.push("fin 1".into());
+                }
+                cases.push(c);
+            }
+        }
+    }
     cases
 }
 
